@@ -49,6 +49,14 @@ def corruptions(sentence, rng, alphabet, n):
     return sorted(out)
 
 
+def _tpos(h):
+    """position of the head's lookahead token (-1: none; the STOP token and injected tokens may have none: the head's position then)"""
+    t = h.token_ahead
+    if t is None:
+        return -1
+    return t.position if isinstance(t.position, int) else h.position
+
+
 class LRRecorder:
     def __init__(self):
         self.ev = []
@@ -71,11 +79,11 @@ class LRRecorder:
             # not a hook: logged by the harness's own custom strategy when it returns (what it left in the head)
             h = f["head"]
             self.ev.append({"e": "strat", "sym": h.token_ahead.symbol.name if h.token_ahead is not None else "-", "pos": h.position, "st": -1, "p": -1,
-                            "ok": bool(f["successful"])})
+                            "ok": bool(f["successful"]), "tpos": _tpos(h)})
         elif kind == "lr_recover":
             h = f["head"]
             self.ev.append({"e": "recover", "sym": h.token_ahead.symbol.name if h.token_ahead is not None else "-", "pos": h.position, "st": -1, "p": -1,
-                            "ok": bool(f["successful"])})
+                            "ok": bool(f["successful"]), "tpos": _tpos(h)})
 
 
 def make_strategy(real, name, counter):
@@ -102,6 +110,15 @@ def _make_strategy(real, name, counter):
             head.token_ahead = None
             return True
         return skip2
+    if name == "skip1p":
+        # the strategy of the repository's own test (tests/func/parsing/error_recovery: `context.position += 1; return True`), which leaves the
+        # lookahead alone; bounded at the end of the input
+        def skip1p(head, error, default):
+            if head.position >= len(head.input_str):
+                return False
+            head.position += 1
+            return True
+        return skip1p
     if name == "inject":
         from parglare.parser import Token
 
@@ -177,9 +194,9 @@ def worker(job):
         return []
     grammar = plain_glr.grammar
     prods = real.prods_json(grammar)
-    configs = [("glr", "default"), ("glr", "skip2"), ("glr", "inject"), ("glr", "wrap")]
+    configs = [("glr", "default"), ("glr", "skip2"), ("glr", "inject"), ("glr", "wrap"), ("glr", "skip1p")]
     if plain_lr is not None:
-        configs += [("lr", "default"), ("lr", "skip2"), ("lr", "inject"), ("lr", "wrap")]
+        configs += [("lr", "default"), ("lr", "skip2"), ("lr", "inject"), ("lr", "wrap"), ("lr", "skip1p")]
     parsers = {}
     for kind, strat in configs:
         kw = {"build_tree": True} if kind == "lr" else {}
